@@ -5,7 +5,7 @@
    field_set_transform.rs (Debug impl calls every field's getter), enum_transform.rs.
    Definitions only.  Names are taken as already normalised. *)
 From Coq Require Import ZArith List Bool String.
-From DD Require Import Common Mir GenErr Layout FieldSetGen.
+From DD Require Import Common Mir GenErr Layout FieldSetGen Case.
 Import ListNotations.
 Open Scope string_scope.
 Open Scope Z_scope.
@@ -108,26 +108,121 @@ Fixpoint discriminants (next : Z) (vs : list variant) : list Z :=
 Fixpoint nodupb (l : list Z) : bool :=
   match l with [] => true | x :: t => negb (existsb (Z.eqb x) t) && nodupb t end.
 
-Definition enum_literals_ok (x : enum_def * base_type * Z) : bool :=
-  let '(e, b, w) := x in
-  let ds := discriminants 0 (e_variants e) in
-  let cb := carrier_bits w in
-  nodupb ds &&
+(* the three ways a discriminant list can be unacceptable to rustc *)
+Definition enum_ds (x : enum_def * base_type * Z) : list Z := discriminants 0 (e_variants (fst (fst x))).
+Definition enum_dup_free (x : enum_def * base_type * Z) : bool := nodupb (enum_ds x).                 (* D12: E0081 *)
+Definition enum_unsigned_ok (x : enum_def * base_type * Z) : bool :=                                   (* D16: `A = -1` under an unsigned repr *)
+  let '(_, b, w) := x in
   match b with
-  | BInt => forallb (fun z => (- 2 ^ (cb - 1) <=? z) && (z <? 2 ^ (cb - 1))) ds   (* repr iN: `B = 65535` does not fit i16 *)
-  | _ => forallb (fun z => (0 <=? z) && (z <? 2 ^ cb)) ds   (* `A = -1` in an enum with an unsigned repr does not compile *)
+  | BInt => true
+  | _ => forallb (fun z => (0 <=? z) && (z <? 2 ^ carrier_bits w)) (enum_ds x)
   end.
+Definition enum_signed_ok (x : enum_def * base_type * Z) : bool :=                                     (* D17: `B = 65535` does not fit i16 *)
+  let '(_, b, w) := x in
+  let cb := carrier_bits w in
+  match b with
+  | BInt => forallb (fun z => (- 2 ^ (cb - 1) <=? z) && (z <? 2 ^ (cb - 1))) (enum_ds x)
+  | _ => true
+  end.
+
+Definition enum_literals_ok (x : enum_def * base_type * Z) : bool :=
+  enum_dup_free x && enum_unsigned_ok x && enum_signed_ok x.
 
 Fixpoint nodup_str (l : list string) : bool :=
   match l with [] => true | x :: t => negb (existsb (String.eqb x) t) && nodup_str t end.
+
+(* ---- identifier namespaces of the output that names_unique does not look at (D20) ----
+   names_unique keeps OBJECT names and GENERATED-ENUM names in two separate sets, per (name, cfg).  The output has
+   other namespaces: (1) the top level: driver struct, block structs, generated enums; (2) `mod field_sets`: one
+   struct per register, `<Cmd>FieldsIn` / `<Cmd>FieldsOut`, and the enum FieldSetValue; (3) the inherent impl of
+   every block struct: new, interface, read_all_registers(_async) and one accessor per object named
+   to_case(Snake) of its (Pascal) name — a map that is not injective (C14_method_names_not_injective);
+   (4) the inherent impl of every field set: new, new_zero, new_as_<snake ref name>, one getter `<field>` per
+   readable field and one setter `set_<field>` per writable field. *)
+Definition declared_block_names (d : device) : list string :=
+  flat_map (fun o => match o with OBlock _ n _ _ _ => [n] | _ => [] end) (preorder_objects (d_objects d)).
+
+Definition toplevel_declared_names (driver : string) (d : device) : list string :=
+  driver :: List.app (declared_block_names d) (map (fun x => e_name (fst (fst x))) (enums_of d)).
+
+Definition builtin_block_methods : list string := ["new"; "interface"; "read_all_registers"; "read_all_registers_async"].
+
+Definition method_name (o : object) : string := to_snake_default (object_name o).
+
+(* bodies of the block impls: the root and every declared block *)
+Definition block_bodies (d : device) : list (list object) :=
+  d_objects d :: flat_map (fun o => match o with OBlock _ _ _ _ inner => [inner] | _ => [] end) (preorder_objects (d_objects d)).
+
+Definition block_methods_unique (d : device) : bool :=
+  forallb (fun body => nodup_str (List.app builtin_block_methods (map method_name body))) (block_bodies d).
+
+Definition accessor_names (fs : list field) : list string :=
+  flat_map (fun f => List.app (if readable (f_access f) then [f_name f] else [])
+                               (if writable (f_access f) then [("set_" ++ f_name f)%string] else [])) fs.
+
+Definition ctor_names (d : device) (reg_name : string) : list string :=
+  "new" :: "new_zero" ::
+  flat_map (fun o => match o with
+                     | ORef _ n (OvRegister target _ _ _ (Some _) _) =>
+                       if String.eqb target reg_name then [("new_as_" ++ to_snake_default n)%string] else []
+                     | _ => []
+                     end) (preorder_objects (d_objects d)).
+
+Definition field_set_fns_unique (d : device) : bool :=
+  forallb (fun o => match o with
+                    | ORegister r => nodup_str (List.app (ctor_names d (rg_name r)) (accessor_names (rg_fields r)))
+                    | OCommand c => nodup_str (List.app ["new"; "new_zero"] (accessor_names (cm_in_fields c))) &&
+                                    nodup_str (List.app ["new"; "new_zero"] (accessor_names (cm_out_fields c)))
+                    | _ => true
+                    end) (preorder_objects (d_objects d)).
+
+Definition namespaces_ok (driver : string) (d : device) : bool :=
+  nodup_str (toplevel_declared_names driver d) && nodup_str ("FieldSetValue" :: field_set_type_names d) &&
+  block_methods_unique d && field_set_fns_unique d.
+
+(* ---- identifiers that are Rust keywords (D21): the emitter writes names with format_ident!, which does not
+   refuse keywords; syn (and rustc) then reject `pub fn match(..)`, `pub fn fn(&self)`, `pub struct Self`.
+   The list is syn's (ident.rs, accept_as_ident). *)
+Definition rust_keywords : list string :=
+  ["_"; "abstract"; "as"; "async"; "await"; "become"; "box"; "break"; "const"; "continue"; "crate"; "do"; "dyn"; "else";
+   "enum"; "extern"; "false"; "final"; "fn"; "for"; "if"; "impl"; "in"; "let"; "loop"; "macro"; "match"; "mod"; "move";
+   "mut"; "override"; "priv"; "pub"; "ref"; "return"; "Self"; "self"; "static"; "struct"; "super"; "trait"; "true"; "try";
+   "type"; "typeof"; "unsafe"; "unsized"; "use"; "virtual"; "where"; "while"; "yield"].
+
+Definition is_keyword (s : string) : bool := existsb (String.eqb s) rust_keywords.
+
+Definition emitted_identifiers (driver : string) (d : device) : list string :=
+  (toplevel_declared_names driver d ++ field_set_type_names d ++
+   map method_name (preorder_objects (d_objects d)) ++
+   map f_name (all_fields d) ++
+   flat_map (fun x => map v_name (e_variants (fst (fst x)))) (enums_of d))%list.
+
+Definition keyword_free (driver : string) (d : device) : bool :=
+  forallb (fun s => negb (is_keyword s)) (emitted_identifiers driver d).
 
 (* Since /repo's repair of D8 read_all_registers emits `ADDR - IDX * |STRIDE|` for negative strides, so the stride
    literal is always non-negative; [read_all_strides_ok] (the obligation the unrepaired emitter failed) is kept for
    the historical theorem only and is no longer part of wf_output. *)
 Definition wf_output (driver : string) (d : device) : bool :=
   nodup_str (toplevel_type_names driver d) && nodup_str (field_set_type_names d) &&
-  debug_refs_resolve d && forallb enum_literals_ok (enums_of d).
+  debug_refs_resolve d && forallb enum_literals_ok (enums_of d) &&
+  namespaces_ok driver d && keyword_free driver d.
 
 (* the structural classes outside which the obligations are proved to hold *)
 Definition has_block_ref (d : device) : bool :=
   existsb (fun o => match o with ORef _ _ (OvBlock _ _ _) => true | _ => false end) (preorder_objects (d_objects d)).
+
+
+(* ---- which obligation fails, by the name of the defect class it was found as (for the correspondence with rustc:
+   a definition with no failing obligation must compile; one with a failing obligation does not, and rustc's error
+   code is the one recorded for that class) ---- *)
+Definition failing_obligations (driver : string) (d : device) : list string :=
+  ((if has_block_ref d then ["D9"] else []) ++
+   (if debug_refs_resolve d then [] else ["D7"]) ++
+   (if forallb enum_dup_free (enums_of d) then [] else ["D12"]) ++
+   (if forallb enum_unsigned_ok (enums_of d) then [] else ["D16"]) ++
+   (if forallb enum_signed_ok (enums_of d) then [] else ["D17"]) ++
+   (if namespaces_ok driver d then [] else ["D20"]) ++
+   (if keyword_free driver d then [] else ["D21"]))%list.
+
+Definition show_obligations (driver : string) (d : device) : string := String.concat "," (failing_obligations driver d).
